@@ -80,7 +80,7 @@ theorem in_contains_converse (rx : Rx) (a b : V) :
   rfl
 
 theorem membership_spec (rx : Rx) (item : J) :
-    (∀ xs, compare rx (.val item) .in_ (.val (.arr xs)) = xs.any (fun x => pyEq item x)) ∧
+    (∀ xs, compare rx (.val item) .in_ (.val (.arr xs)) = xs.any (fun x => item.eqv x)) ∧
     (∀ s t, compare rx (.val (.str t)) .in_ (.val (.str s)) = isInfix t s) ∧
     (∀ kvs k, compare rx (.val (.str k)) .in_ (.val (.obj kvs)) = dictHas kvs k) := by
   refine ⟨fun xs => ?_, fun s t => ?_, fun kvs k => ?_⟩ <;> rfl
